@@ -772,10 +772,10 @@ def failure_edges(body, local, depth=0):
     return out
 
 
-def other_failures(body, sources):
+def other_failures(body, sources, extra_cut=()):
     """Err-exits that can be reached although none of the fallible `sources` (calls) has failed: evaluation may only fail for the reasons listed.
     Decided by cutting the failure edges of the sources and asking (variant-aware) which Err-exits are still reachable from the entry."""
-    cut = set()
+    cut = set(extra_cut)
     for c in sources: cut |= failure_edges(body, c.dst['l'])
     return sorted(reach_v(body, [0], cut=cut) & body.err_exits())
 
@@ -812,6 +812,7 @@ def components(n):
          ('zip', [components])    itertools::multizip((a, b, ..)) ≡ izip!(a, b, ..) ≡ a.zip(b) (nested: ((a, b), c))
          ('index',)               the counter of enumerate()
          ('one', expr)            slice::from_ref(&x) / iter::once(x) / [x]: exactly one element, x
+         ('array', [exprs])       `for x in [a, b, ..]`: the copy-pasted statements for a, b, .. folded into a loop; its item is each of them in turn
          ('take', comp, n)        it.take(n): the same elements, cut at n (leaf ('bound', n) for the validity check)
          ('range', lo, hi)        the counter of `lo..hi` (an index loop; see Kernel.msg_path: list[k] is the element of list in that loop)
          ('vec', local, push)     (added by Kernel.comp_of) the elements of a local Vec that is filled by one push per iteration of another loop
@@ -829,6 +830,7 @@ def components(n):
         if n[0] == 'place' or is_item(n): return ('src', n)
         if n[0] == 'agg' and n[1].endswith('ops::Range') and len(n[2]) == 2: return ('range', n[2][0], n[2][1])
         if n[0] == 'agg' and n[1] == 'array' and len(n[2]) == 1: return ('one', n[2][0])
+        if n[0] == 'agg' and n[1] == 'array' and len(n[2]) > 1: return ('array', list(n[2]))
         return ('other', n)
 
 
@@ -903,7 +905,7 @@ class Kernel:
         fsrc = [self.msg_path(l[1]) for l in comp_leaves(self.comp_of(flo)) if l[0] == 'src']
         for l in leaves:
             if l[0] == 'src' and (self.msg_path(l[1]) is None or self.msg_path(l[1]) not in fsrc): return nb
-            if l[0] not in ('src', 'vec', 'index', 'bound', 'one'): return nb
+            if l[0] not in ('src', 'vec', 'index', 'bound', 'one', 'array'): return nb
         return self.canon(fill, depth + 1)
 
     def vec_problems(self, leaf):
@@ -936,31 +938,39 @@ class Kernel:
         return None
 
     def msg_path(self, node, depth=0):
-        """where in the message a value is read: (field path from self, [next-call blocks of the loops crossed]); None = not (only) from the message.
+        """where in the message a value is read: (field path from self, [next-call blocks of the loops crossed]); None = not (only / not uniquely) from the message"""
+        r = self.msg_paths(node, depth)
+        return r[0] if len(r) == 1 else None
+
+    def msg_paths(self, node, depth=0):
+        """all places in the message a value may be read from: [(field path from self, [next-call blocks of the loops crossed])]; [] = not (only) from the message.
            element idioms:  item of a loop over the list (through views / zips)  ≡  list[k] with k the counter of `0..n` or of enumerate()
-                            ≡  item of a loop over a Vec into which the value was pushed by the loop over the list (loop fission)"""
+                            ≡  item of a loop over a Vec into which the value was pushed by the loop over the list (loop fission)
+                            ≡  item of a loop over [a, b, ..] / [x] / once(x): each of the listed values (several alternatives)"""
         n = peel(node)
         if n[0] == 'call' and n[1] == 'next' and 'Iterator' in n[2]: n = ('proj', n, [('std::option::Option::Some', '0')])
-        if n[0] == 'place' and n[1] == 1: return list(n[2]), []
-        if depth >= 6: return None
+        if n[0] == 'place' and n[1] == 1: return [(list(n[2]), [])]
+        if depth >= 6: return []
         rest = []
         if n[0] == 'proj' and n[1][0] == 'call' and n[1][1] == 'index': rest = list(n[2]); n = n[1]
         if n[0] == 'call' and n[1] == 'index' and 'Index<usize>' in n[2] and len(n[3]) == 2:
             base = self.msg_path(n[3][0], depth + 1); ctr = self.counter_loop(n[3][1])
-            if base is None or ctr is None: return None
-            return base[0] + rest, base[1] + [ctr]
+            if base is None or ctr is None: return []
+            return [(base[0] + rest, base[1] + [ctr])]
         r = self.navigate(n)
         if r is not None:
             c, fs, nb = r
-            if c[0] == 'vec': return self.msg_path(project(self.vx.op(c[2].args[1]), fs), depth + 1)
-            if c[0] == 'one':
-                base = self.msg_path(project(c[1], fs), depth + 1)
-                return None if base is None else (base[0], base[1] + [nb])
-            if c[0] != 'src': return None
-            base = self.msg_path(c[1], depth + 1)
-            if base is None: return None
-            return base[0] + fs, base[1] + [nb]
-        return None
+            if c[0] == 'vec': return self.msg_paths(project(self.vx.op(c[2].args[1]), fs), depth + 1)
+            if c[0] in ('one', 'array'):
+                out = []
+                for e in ([c[1]] if c[0] == 'one' else c[1]):
+                    base = self.msg_paths(project(e, fs), depth + 1)
+                    if not base: return []
+                    out += [(b0, b1 + [nb]) for b0, b1 in base]
+                return out
+            if c[0] != 'src': return []
+            return [(b0 + fs, b1 + [nb]) for b0, b1 in self.msg_paths(c[1], depth + 1)]
+        return []
 
     def vec_element(self, n):
         """the value pushed for an item of a loop over a filled Vec (see canon); None if n is not such an item"""
@@ -980,6 +990,27 @@ class Kernel:
             elif isinstance(x, list): out.append([self.inline_vecs(y, depth + 1) if isinstance(y, tuple) and y and isinstance(y[0], str) else y for y in x])
             else: out.append(x)
         return tuple(out)
+
+    def index_unguarded(self, f):
+        """None if the infallible read `state.entries[id]` (expr f) comes after a complete fallible check of the same ids; else the reason.
+        A check = a state lookup (get ..? / match) or a membership test (contains_key whose false side only errs) keyed by the same message path, on every
+        iteration of loops over the message's own lists, and before the read on every path."""
+        body = self.body; ctx = self.ctx
+        r = peel(f[3][0])
+        if not (r[0] == 'place' and r[1] == 2): return 'indexing of another state'
+        want = self.msg_paths(f[3][1])
+        if not want: return 'indexing with a key that is not an id of the message'
+        checks = [(c, c.args[1]) for c in state_lookups(ctx, body)] + [(c, c.args[1]) for c in membership_tests(ctx, body)]
+        for fields, loops in want:
+            ok = False
+            for c, key in checks:
+                for cf, cl in self.msg_paths(self.vx.op(key)):
+                    if cf != fields: continue
+                    if self.every_iteration(cl, [c.bb]) or any(self.loop_problems(nb) for nb in cl): continue
+                    first = self.by_next[cl[0]][1] if cl else c.bb
+                    if f[4] >= 0 and (body.dominates(first, f[4]) and (c.bb not in body.reach([f[4]]) or body.dominates(c.bb, f[4]))): ok = True
+            if not ok: return 'indexing without a complete check of the same ids before it'
+        return None
 
     def loop_lists(self, nb, depth=0):
         """field paths of the message lists a loop runs over (any of them empty => no iteration)"""
@@ -1003,7 +1034,10 @@ class Kernel:
         for leaf in comp_leaves(self.comp_of(lo)):
             k = leaf[0]
             if k == 'index': continue
-            if k == 'one':
+            if k == 'array':
+                for e in leaf[1]:
+                    if not self.msg_paths(e): out.append('a loop runs over listed values that are not read from the message (%s)' % T.expr_str(e))
+            elif k == 'one':
                 if self.msg_path(leaf[1]) is None: out.append('a loop runs over a single value that is not read from the message (%s)' % T.expr_str(leaf[1]))
             elif k == 'src':
                 if self.msg_path(leaf[1]) is None: out.append('a loop iterates a derived collection instead of the message\'s own list (%s)' % T.expr_str(leaf[1]))
@@ -1100,9 +1134,33 @@ def in_given_state(body, c, param=2):
     return T.access_path(body, c.args[0])[1] == param or (r[0] == 'place' and r[1] == param and r[2][-1:] == [('v1::State', 'entries')])
 
 
+def membership_tests(ctx, body):
+    """`state.entries.contains_key(id)` tests whose false side reaches no Ok-exit (ensure!(contains_key) / if !contains_key { bail! })"""
+    out = []
+    for c in body.calls:
+        if c.item == 'contains_key' and re.search(r'HashMap::<u64, f64>::contains_key', c.name) and len(c.args) == 2:
+            if ('v1::State', 'entries') not in T.expr_fields(lookup_receiver(body, c)): continue
+            if any(g.requires(True) for g in T.guards_from_call(body, c)): out.append(c)
+    return out
+
+
+def membership_failure_edges(body, c):
+    return {(g.switch_bb, g.false_bb) for g in T.guards_from_call(body, c) if g.requires(True) and g.false_bb is not None}
+
+
 def is_lookup(e):
     e = peel(e)
     return e[0] == 'call' and e[1] == 'get' and bool(re.search(STATE_GET, e[2])) and len(e[3]) == 2
+
+
+STATE_INDEX = re.compile(r'HashMap<u64, f64> as std::ops::Index<&.*u64>>::index$')
+
+
+def is_indexed_lookup(e):
+    """`state.entries[&id]`: infallible indexing of the state's map (panics on a missing id)"""
+    e = peel(e)
+    return e[0] == 'call' and e[1] == 'index' and bool(STATE_INDEX.search(T.strip_generics_tail(e[2]))) and len(e[3]) == 2 \
+        and ('v1::State', 'entries') in T.expr_fields(peel(e[3][0]))
 
 
 def returned_pair(body):
@@ -1142,7 +1200,7 @@ def kernel_rules(ctx, short):
     decide(ctx, R + '.lookup/%s/missing-is-error' % short, 'T-ERRFLOW', body,
            [('state lookup: ' + why, body.site(c.bb)) for c, why in errflow_bad(body, lookups)] +
            [('state lookup: ' + why, cb.site(c.bb)) for cb in closures for c, why in errflow_bad(cb, state_lookups(ctx, cb))] +
-           ([] if lookups or hidden else [('no state lookup in the evaluator', None)]))
+           ([] if lookups or hidden or membership_tests(ctx, body) else [('no state lookup in the evaluator', None)]))      # contains_key + bail! is a lookup whose miss is an error by construction
     # evaluation fails ONLY when a variable is missing (or the nested evaluation of a part failed): no Err-exit is reachable unless a state lookup
     # came back empty / an Evaluate::evaluate call returned Err.  Consumers that run closures with lookups inside (weak fallback) count as sources too.
     sources = list(lookups) + [c for c in body.calls if c.item == 'evaluate' and (c.trait or '').endswith('Evaluate')]
@@ -1153,7 +1211,8 @@ def kernel_rules(ctx, short):
                 for k2, b2, d in body.defs_of(a['pl']['l']):
                     if k2 == 'stmt' and d['rv']['k'] == 'agg' and d['rv']['adt'].startswith('closure:') and d['rv']['adt'][8:] in hidden_paths and c not in sources: sources.append(c)
     decide(ctx, R + '.lookup/%s/only-missing-variable-fails' % short, 'T-ERRFLOW', body,
-           [('evaluation can fail although no variable is missing from the state', body.site(e)) for e in other_failures(body, sources)])
+           [('evaluation can fail although no variable is missing from the state', body.site(e))
+            for e in other_failures(body, sources, set().union(*[membership_failure_edges(body, c) for c in membership_tests(ctx, body)]) if membership_tests(ctx, body) else ())])
     decide(ctx, R + '.lookup/%s/state' % short, 'T-CARRY', body,
            [('lookup is not in the given state', body.site(c.bb)) for c in lookups if not in_given_state(body, c)])
     # lookups hidden in closures that the normal form could not splice cannot be followed: fail closed (but see weak_kernel)
@@ -1283,16 +1342,24 @@ def term_analysis(K, spec, ups, term_loop):
         for f, via in product_factors(term, None, vx):
             if f[0] == 'bad-accumulator': other.append((f, via)); continue
             if is_lookup(f): looks.append((peel(f), via, ubi)); continue
+            if is_indexed_lookup(f):
+                # `entries[id]`: a missing id panics, it never yields a number - but the property wants an Err: accepted only behind a complete
+                # fallible check of the same ids ("validate first, then compute")
+                w = K.index_unguarded(peel(f))
+                if w is None: looks.append((peel(f), via, ubi))
+                else: other.append((('call', 'unchecked ' + w, '', [], -1), via))
+                continue
             mp = K.msg_path(f)
             if mp is not None and same_path(mp[0], spec['coef']): coefs.append((f, via, ubi, mp))
             else: other.append((f, via))
     nups = len(ups)
     facs = ['%s' % T.expr_str(f[0]) if f[0][0] != 'bad-accumulator' else 'accumulator updated by %s' % f[0][1] for f in coefs + looks + other]
-    shape_ok = len(coefs) == nups and not other and len(looks) == nups * len(spec['ids'])
+    # a lookup keyed by the item of `for id in [a, b]` stands for one lookup per listed value
+    keyed = [(f, via, ubi, mp) for f, via, ubi in looks for mp in (K.msg_paths(f[3][1]) or [None])]
+    shape_ok = len(coefs) == nups and not other and len(keyed) == nups * len(spec['ids'])
     # each lookup is keyed by an id of this term, and multiplied in exactly once per occurrence of the id
     keys = []; once = []
-    for f, via, ubi in looks:
-        mp = K.msg_path(f[3][1])
+    for f, via, ubi, mp in keyed:
         hit = [i for i, p in enumerate(spec['ids']) if mp is not None and same_path(mp[0], p)]
         keys.append(spec['ids'][hit[0]][-1][1] if hit else None)
         if mp is None: continue
@@ -1319,7 +1386,7 @@ def term_analysis(K, spec, ups, term_loop):
         probs += [(w, body.site(nb)) for w in K.loop_problems(nb)]
     # an id loop that is not recognised at all (key does not resolve): report the loop of the lookup
     for f, via, ubi in looks:
-        if K.msg_path(f[3][1]) is None:
+        if not K.msg_paths(f[3][1]):
             probs.append(('the id of a lookup does not come straight from the message\'s own list (%s)' % T.expr_str(f[3][1]), body.site(f[4] if len(f) > 4 else ubi)))
     return dict(shape_ok=shape_ok, facs=facs, keys=keys, want=want, keys_ok=keys_ok, once=once, loops=probs, other=other)
 
@@ -1540,9 +1607,9 @@ def used_analysis(K, spec, sop):
     for c in body.calls:
         nm = T.strip_generics_tail(c.name)
         if c.item == 'insert' and SET_INSERT.search(nm) and len(c.args) == 2:
-            mp = K.msg_path(vx.op(c.args[1]))
-            if mp is None or not any(same_path(mp[0], p) for p in spec['ids']): continue
-            (sites if into_set(c) else stray).append((c, mp[0], mp[1]))
+            for mp in K.msg_paths(vx.op(c.args[1])):           # an insert in `for id in [a, b]` records a and b
+                if not any(same_path(mp[0], p) for p in spec['ids']): continue
+                (sites if into_set(c) else stray).append((c, mp[0], mp[1]))
         elif c.item == 'extend' and SET_EXTEND.search(nm) and len(c.args) == 2:
             comp = components(vx.op(c.args[1]))
             mp = K.msg_path(comp[1]) if comp[0] == 'src' else None
